@@ -155,6 +155,19 @@ class Ctx:
                 or self._stale(relpath, vo):
             with open(path, 'w') as f:
                 f.write(text)
+            # the generated text obeys the same rules as the hand-written
+            # files (no Axiom/Parameter/Admitted, no Variable outside a
+            # Section): a translator that emitted one would be a broken tie
+            import io
+            import contextlib
+            import lint_coq
+            buf = io.StringIO()
+            with contextlib.redirect_stdout(buf):
+                nbad = lint_coq.lint_file(path)
+            if nbad:
+                raise Broken('translator',
+                             f'{relpath}: generated code contains forbidden '
+                             'vernacular: ' + buf.getvalue().strip()[-800:])
             rc, out, err, dt = self.coqc(relpath, 600)
             if rc != 0:
                 raise Broken('translator',
